@@ -130,3 +130,13 @@ def in_range(i, lo, hi):
 
 def flat(a):
     return np.ndarray.reshape(np.asarray(a, dtype=object), -1) if nd.has_sym(a) else np.asarray(a).reshape(-1)
+
+
+def fortran_view(M):
+    """the same array values with column-major memory layout (a transposed view of a C-ordered copy of the transpose): functions must
+    depend on the values, not on the memory layout of their arguments"""
+    A = np.asarray(M)
+    T = np.array(A.T, dtype=A.dtype, order="C", copy=True)
+    F = T.T
+    assert F.shape == A.shape and (A.ndim < 2 or min(A.shape) < 2 or not F.flags["C_CONTIGUOUS"])
+    return F.view(SymNd) if isinstance(M, SymNd) else F
